@@ -796,7 +796,7 @@ func genTLSArgs(r *vh.Rng) string {
 	if r.Intn(8) == 0 {
 		auth = "none"
 	}
-	kinds := []string{"good", "good", "good", "peer", "other", "untrusted"}
+	kinds := []string{"good", "good", "good", "poolgood", "poolgood", "peer", "other", "rogue"}
 	dialKinds := []string{"a:n", "b:n", "a:n", "b:n", "a:i", "b:i"}
 	n := 1 + r.Intn(3)
 	dials := make([]string, n)
